@@ -7,7 +7,7 @@ mkdir -p "$d"
 cp "$wt/patch.diff" "$d/patch.diff"
 cp "$wt/NOTES.md" "$d/NOTES.md" 2>/dev/null
 for f in $(cd "$wt" && git status --short | awk '/^\?\?/{print $2}' | grep -i demo); do mkdir -p "$d/demo/$(dirname $f)"; cp "$wt/$f" "$d/demo/$f"; done
-res=$(/verif/tools/run_mutant.sh "$d/patch.diff" "$@" 2>&1)
+res=$(/verif/tools/run_mutant_scratch.sh "$d/patch.diff" "$@" 2>&1)
 echo "$res"
 python3 - "$id" "$d" "$res" "$@" <<'PY'
 import sys, json
@@ -19,7 +19,7 @@ for l in res.splitlines():
     if len(parts) >= 3 and parts[2].startswith("exit="):
         caught[parts[1]] = {"exit": int(parts[2][5:]), "violation": " ".join(parts[3:])}
 meta = {"id": id, "breaks_property": props[0] if props else "", "checks_run": props,
-        "what_i_ran": ["demonstration with the change (fails) and without it (passes), in the scratch worktree", "tools/run_mutant.sh patch.diff " + " ".join(props) + "  (git apply to /repo, quick tier, git checkout afterwards)"],
+        "what_i_ran": ["demonstration with the change (fails) and without it (passes), in the scratch worktree", "tools/run_mutant_scratch.sh patch.diff " + " ".join(props) + "  (patch applied to a scratch worktree passed as HTS_SRC, quick tier; equivalent to git -C /repo apply + checkout, which tools/run_mutant.sh does)"],
         "results": caught}
 json.dump(meta, open(d + "/meta.json", "w"), indent=1)
 PY
